@@ -455,6 +455,11 @@ class Oracle:
             return "ok:%d" % n
         return "ok:0"
 
+    def cat_tables(self):
+        """name -> declared column list `col/ty/nn/pk,...` (a key column is NOT NULL)"""
+        return {n: ",".join("%s/%s/%d/%d" % (c[0], c[1], 1 if (c[2] or c[3]) else 0, 1 if c[3] else 0) for c in d.cols)
+                for n, (d, _) in self.tables.items()}
+
     def tabs_text(self):
         out = []
         for n in self.names:
@@ -709,17 +714,18 @@ def compare_hist(h, impl, model):
     stats = {"max_rowsets": 0, "deleted_rows": 0, "merges": 0, "reopens": 0, "dv_rowsets": 0, "bulk_parts": 0,
              "reopens_with_data": 0}
     prev_tabs = None
+    model_off = False
     for k, s in enumerate(h["steps"]):
         key = "H%d.%d" % (h["id"], k)
         i, m = impl.get(key), model.get(key)
-        if i is None or m is None:
+        if i is None or (m is None and not model_off):
             ev.append(("corr", k, "missing-line", str(i)[:200], str(m)[:200]))
             cnt["mi"] += 1
             cnt["mi_bad"] += 1
             break
         cnt["steps"] += 1
         exp = orc.apply(s)
-        for t in (m.get("tag") or "").split(","):
+        for t in ((m or {}).get("tag") or "").split(","):
             if t:
                 tags.add(t)
         iout = i["out"]
@@ -729,11 +735,14 @@ def compare_hist(h, impl, model):
             # implementation, so the model's own tag need not fire on the same statement)
             tags.add("dv-file-exists")
         # --- model vs impl
-        cnt["mi"] += 1
         diffs = []
+        if model_off:
+            m = {"out": iout, "tabs": None} if "tabs" in i else {"out": iout}
+        else:
+            cnt["mi"] += 1
         if iout != m["out"]:
             diffs.append(("out", iout, m["out"]))
-        if "tabs" in i and "tabs" in m:
+        if "tabs" in i and "tabs" in m and not model_off:
             keyed = keyed_tids(i.get("cat", ""))
             # which DV id goes to which row-set of one DELETE follows hash-map order in the
             # implementation: pair the DVs that are new in this step by their row-set and carry
@@ -768,6 +777,22 @@ def compare_hist(h, impl, model):
                 bad = ("outcome of %s" % s["k"], iout, exp)
         elif not iout.startswith("ok"):
             bad = ("%s does not succeed" % s["k"], iout, "ok")
+        if bad is None and "cat" in i:
+            # the catalog is part of the property: the set of tables and, per table, the column list with
+            # type, NOT NULL and PRIMARY KEY flags (the harness' catalog dump, ids left out) must be what
+            # the acknowledged DDL declared - after every step, in particular after every reopen
+            have = {}
+            for e in i["cat"].split():
+                p = e.split(":", 3)
+                if len(p) == 4 and p[2] == "t":
+                    have[p[1]] = p[3]
+            want = orc.cat_tables()
+            if have != want:
+                def txt(c):
+                    return " ".join("%s(%s)" % (n, c[n]) for n in sorted(c)) or "(no table)"
+                bad = ("catalog after %s" % s["k"], txt(have), txt(want))
+            else:
+                stats["cat_checked"] = stats.get("cat_checked", 0) + 1
         if bad is None and "tabs" in i:
             it, ot = canon_tabs(i["tabs"]), canon_tabs(orc.tabs_text())
             if it != ot:
@@ -835,8 +860,13 @@ def compare_hist(h, impl, model):
             stats["reopens"] += 1
             if i.get("rs", "").strip():
                 stats["reopens_with_data"] += 1
-        if diffs or bad:
+        if bad:
             break
+        if diffs:
+            # model and implementation have parted: the model is out of the walk from here on, the
+            # model-free oracle (outcomes, bags, counts, key order, catalog) goes on to the end of the
+            # history, so that a property failure behind the first difference is found with its input
+            model_off = True
     return cnt, ev, stats, tags
 
 
@@ -854,7 +884,7 @@ def evaluate(ck, hists, impl, model, totals, samples):
             totals[a] = totals.get(a, 0) + cnt[a]
         nontriv = stats["max_rowsets"] >= 2 and stats["deleted_rows"] >= 1
         totals["nontrivial"] = totals.get("nontrivial", 0) + (1 if nontriv else 0)
-        for a in ("merges", "reopens", "kseq_checked", "kseq_bad"):
+        for a in ("merges", "reopens", "kseq_checked", "kseq_bad", "cat_checked"):
             totals[a] = totals.get(a, 0) + stats.get(a, 0)
         totals["max_rowsets"] = max(totals.get("max_rowsets", 0), stats["max_rowsets"])
         if nontriv:
